@@ -126,19 +126,29 @@ fn cert_template(t: &str) -> Value {
 		// the shortest key identifier a caller can give
 		p["kid"] = json!({"k": "pre", "b": []});
 	}
+	if t.ends_with("/s20") {
+		// the longest serial number the profile allows, with its first bit set (the shape of an automatic serial before clearing)
+		p["serial"] = json!({"k": "given", "b": [0x9c, 0xa5, 3, 4, 5, 6, 7, 8, 9, 10, 11, 12, 13, 14, 15, 16, 17, 18, 19, 0xff]});
+	}
 	p
 }
 
 fn crl_template(t: &str) -> Value {
 	let b = t.ends_with("/2");
 	let tm = |d: u8| json!({"y": 2024, "mo": 5, "d": d, "h": 1, "mi": 2, "s": 3, "ns": 0, "off": 0});
-	json!({"thisUpdate": tm(1), "nextUpdate": tm(20), "crlNumber": [1, 0], "idp": {"k": "some", "uris": [text("http://crl.example/idp")], "scope": "user"},
+	let mut c = json!({"thisUpdate": tm(1), "nextUpdate": tm(20), "crlNumber": [1, 0], "idp": {"k": "some", "uris": [text("http://crl.example/idp")], "scope": "user"},
 		"revoked": [
 			{"serial": [1], "time": tm(2), "reason": {"k": "some", "code": 1}, "invalidity": {"k": "some", "t": tm(1)}},
 			{"serial": [0, 200], "time": tm(3), "reason": {"k": "none", "code": 0}, "invalidity": {"k": "none", "t": tm(1)}},
 			{"serial": [7], "time": tm(3), "reason": {"k": "some", "code": 0}, "invalidity": {"k": "some", "t": tm(2)}},
 			{"serial": [9, 9, 9], "time": tm(4), "reason": {"k": "some", "code": 9}, "invalidity": {"k": "none", "t": tm(1)}}],
-		"kid": if t.ends_with("/e0") { json!({"k": "pre", "b": []}) } else { kid(b, if b { "sha384" } else { "sha512" }) }})
+		"kid": if t.ends_with("/e0") { json!({"k": "pre", "b": []}) } else { kid(b, if b { "sha384" } else { "sha512" }) }});
+	if t.ends_with("/s20") {
+		let s20 = json!([0x9c, 0xa5, 3, 4, 5, 6, 7, 8, 9, 10, 11, 12, 13, 14, 15, 16, 17, 18, 19, 0xff]);
+		c["crlNumber"] = s20.clone();
+		c["revoked"][0]["serial"] = s20;
+	}
+	c
 }
 
 pub fn setup(dir: &str, remote: bool) -> Shared {
@@ -335,7 +345,7 @@ pub fn interfere(x: &str, sh: &Shared, rng: &mut Rng) {
 	});
 }
 
-pub const TEMPLATES: [&str; 20] = ["cert-self/rm", "csr/rm", "cert-issued/auto/2", "cert-self/r3", "cert-self/e0", "crl/e0", "cert-self/1", "cert-self/2", "cert-issued/1", "cert-issued/2", "csr/1", "csr/2", "crl/1", "crl/2",
+pub const TEMPLATES: [&str; 23] = ["cert-self/s20", "cert-issued/s20", "crl/s20", "cert-self/rm", "csr/rm", "cert-issued/auto/2", "cert-self/r3", "cert-self/e0", "crl/e0", "cert-self/1", "cert-self/2", "cert-issued/1", "cert-issued/2", "csr/1", "csr/2", "crl/1", "crl/2",
 	"cert-issued/n2", "cert-issued/k2", "cert-issued/ra", "cert-issued/rb", "crl/n2", "crl/k2"];
 /// cheap templates (Ed25519 signers) that alternate between issuers differing in one component: hammered by the hot phase
 pub const HOT: [&str; 7] = ["cert-issued/1", "cert-issued/n2", "cert-issued/k2", "crl/1", "crl/n2", "crl/k2", "cert-issued/auto/2"];
@@ -346,6 +356,34 @@ pub fn child(dir: &str, sessions_path: &str, out_path: &str, threads: usize, gen
 	let pid = std::process::id();
 	let mut events: Vec<Value> = Vec::new();
 	let mut rng = Rng::new(seed ^ pid as u64);
+	// phase 0: the key files (written once by the parent, PKCS#8 as OpenSSL writes it) load under this build through the entry
+	// points the sessions use; a build that refuses one of them cannot take part, which is itself what C16 is about
+	#[cfg(feature = "crypto")]
+	{
+		let mut refused = false;
+		for (name, alg, entry) in [("ked", "ed25519", "pkcs8-explicit"), ("krsa", "rsa-sha256", "pkcs8-explicit"), ("kp256", "ecdsa-p256-sha256", "pkcs8-explicit"),
+			("ked2", "ed25519", "pkcs8-explicit"), ("krsa2", "rsa-sha256", "pkcs8-explicit"), ("krsa3", "rsa-sha256", "auto-pkcs8")] {
+			let pkcs8 = std::fs::read(format!("{}/{}.pk8", dir, name)).expect("key file");
+			let pkey = openssl::pkey::PKey::private_key_from_der(&pkcs8).unwrap();
+			let info = info_from_pkey(name, alg, &pkey, "file");
+			let (o, err) = match guarded(|| load_rcgen(&info, entry)) {
+				Outcome::Ok(kp) => (if kp.public_key_raw() == &info.raw_pub[..] { "Ok" } else { "Err" }, String::new()),
+				Outcome::Err(e) => ("Err", e),
+				Outcome::Panic(m) => ("Panic", m),
+			};
+			refused |= o != "Ok";
+			events.push(json!({"i": 0, "op": "KeyFile", "case": format!("keyfile/{}/{}", pid, name), "be": crate::BACKEND,
+				"args": {"name": name, "alg": alg, "entry": entry}, "out": o, "err": err, "obs": {}}));
+		}
+		if refused {
+			let mut out = Out::create(out_path);
+			for e in events.iter_mut() {
+				out.raw(e);
+			}
+			out.finish();
+			return;
+		}
+	}
 	// phase 1: sessions enumerated by TLC simulation, replayed call by call (local keys where the build has them)
 	let sh = setup(dir, false);
 	if !sessions_path.is_empty() {
